@@ -5,6 +5,15 @@ HERE = os.path.dirname(os.path.dirname(os.path.abspath(__file__)))
 ALL = [f"C{i:02d}" for i in range(1, 19)]
 # property -> (technique, level text, level note, design_ref)
 CHECKS = {
+ "C10": ("runtime trace monitor: a harness bijection-like object records every evaluation point the search requests "
+         "(ordered host callbacks); offline trace checker for bounded progress (logical steps, abort from inside the callback) "
+         "and accuracy against roots known by construction; real BNAF inverses with far targets",
+         "Exploration: ~1.7e4 (quick) / ~9e4 (thorough) search runs over a function family x root placement x interval x tol x "
+         "max_iter x dtype grid, each with its complete evaluation trace; termination is decided on logical steps, accuracy "
+         "against the constructed root with a stated floating-point resolution.",
+         "Trusts the closed-form root construction (y=g(r) with the same compiled g) and the resolution term res; the "
+         "bracket invariant is recorded but not a verdict (the statement does not require it).",
+         "DESIGN.md 4/C10"),
  "C15": ("runtime trace monitor at the user loss_fn boundary (row tags, parameter-version counter, key words via ordered host "
          "callbacks) + icontract contracts on the real train_val_split/get_batches; offline history checker",
          "Exploration: hundreds (quick) / thousands (thorough) of sampled (n, batch_size, val_prop, condition, epochs, key) "
